@@ -1,6 +1,6 @@
 /-
   C23 — tangent operator converters `tfel::material::convert<To, From>` (property theorems only).
-  `SPATIAL_MODULI ← DS_DEGL`, N = 3.
+  `SPATIAL_MODULI ← DS_DEGL`, N = 3 (assembled from the six component modules).
   `Gen.N<d>_<TO>__<FROM>_r c c3 fn D f g s` is the stored result (list of rows) of the traced converter
   for the source operator `D` (arbitrary symbols, stored matrix), `F0` (`f`), `F1` (`g`) and the stored
   Cauchy stress `s`. The meaning of every flag (`lam*`, kinematic rates) is in Spec.lean. Each theorem
@@ -10,13 +10,19 @@ import TfelVerif.Common.M3
 import TfelVerif.C23.Spec
 import TfelVerif.C23.Lemmas
 import TfelVerif.C23.GenN3_SPATIAL_MODULI__DS_DEGL
+import TfelVerif.C23.PropsN3_SPATIAL_MODULI__DS_DEGL_aux0
+import TfelVerif.C23.PropsN3_SPATIAL_MODULI__DS_DEGL_aux1
+import TfelVerif.C23.PropsN3_SPATIAL_MODULI__DS_DEGL_aux2
+import TfelVerif.C23.PropsN3_SPATIAL_MODULI__DS_DEGL_aux3
+import TfelVerif.C23.PropsN3_SPATIAL_MODULI__DS_DEGL_aux4
+import TfelVerif.C23.PropsN3_SPATIAL_MODULI__DS_DEGL_aux5
 
 namespace TfelVerif.C23.PropsN3_SPATIAL_MODULI__DS_DEGL
 open TfelVerif TfelVerif.Mandel TfelVerif.C23
 set_option linter.all false
 set_option maxHeartbeats 16000000
 set_option maxRecDepth 100000
-variable {K : Type} [Field K] (c c3 : K) (fn : Fns K)
+variable {K : Type} [Field K] [CharZero K] (c c3 : K) (fn : Fns K)
 
 /-- `SPATIAL_MODULI ← DS_DEGL` (3D): along every variation `δF = L F` the converted operator, applied to the
 rate of its kinematic variable, gives the rate of the Lie derivative of the Kirchhoff stress that reproduces the same Lie derivative of
@@ -25,8 +31,13 @@ theorem N3_SPATIAL_MODULI__DS_DEGL (hc : c * c = 2) (h2 : (2:K) ≠ 0)
     (D : Nat → Nat → K) (F0 : M3 K) (g : Nat → K) (L : M3 K) (s : Nat → K)  :
     upper (lamSM (M3.ofTens [g 0, g 1, g 2, g 3, g 4, g 5, g 6, g 7, g 8]) (M3.ofMandel c [s 0, s 1, s 2, s 3, s 4, s 5]) L (M3.ofMandel c (act (Gen.N3_SPATIAL_MODULI__DS_DEGL_r c c3 fn D (tensv F0) g s) (M3.mandel3 c (symm L)))))
       = upper (lamS (M3.ofTens [g 0, g 1, g 2, g 3, g 4, g 5, g 6, g 7, g 8]) (M3.ofMandel c [s 0, s 1, s 2, s 3, s 4, s 5]) L (M3.ofMandel c (act (rowsOf D i6 i6) (M3.mandel3 c (dE (M3.ofTens [g 0, g 1, g 2, g 3, g 4, g 5, g 6, g 7, g 8]) L))))) := by
-  have hc0 : c ≠ 0 := c_ne_zero hc h2
-  obtain ⟨l00,l01,l02,l10,l11,l12,l20,l21,l22⟩ := L
-  c23_rat0c hc
+  have hs : symm L = M3.sym (symm L).a00 (symm L).a11 (symm L).a22 (symm L).a01 (symm L).a02 (symm L).a12 := by
+    obtain ⟨l00,l01,l02,l10,l11,l12,l20,l21,l22⟩ := L
+    c23_unfold
+    refine ⟨?_, ?_, ?_⟩ <;> ring1
+  unfold lamSM lamS dE
+  rw [hs]
+  simp only [upper, List.cons.injEq, and_true]
+  exact ⟨PropsN3_SPATIAL_MODULI__DS_DEGL_aux0.aux0 c c3 fn hc h2 D F0 g _ _ _ _ _ _ s, PropsN3_SPATIAL_MODULI__DS_DEGL_aux1.aux1 c c3 fn hc h2 D F0 g _ _ _ _ _ _ s, PropsN3_SPATIAL_MODULI__DS_DEGL_aux2.aux2 c c3 fn hc h2 D F0 g _ _ _ _ _ _ s, PropsN3_SPATIAL_MODULI__DS_DEGL_aux3.aux3 c c3 fn hc h2 D F0 g _ _ _ _ _ _ s, PropsN3_SPATIAL_MODULI__DS_DEGL_aux4.aux4 c c3 fn hc h2 D F0 g _ _ _ _ _ _ s, PropsN3_SPATIAL_MODULI__DS_DEGL_aux5.aux5 c c3 fn hc h2 D F0 g _ _ _ _ _ _ s⟩
 
 end TfelVerif.C23.PropsN3_SPATIAL_MODULI__DS_DEGL
